@@ -551,24 +551,26 @@ def deleted_observed(ctx, esc, rule):
 # ---------------------------------------------------------------------------------------
 def mac_check(ctx, esc):
     """the integrity comparison of Message.parse: (fi, cfg, cond node, label of the passing edge,
-    computed-side expr (inlined), received-side expr)"""
-    from ..terms import inline
+    computed-side value term, received-side value term).  The comparison is recognised by its value term: an (in)equality
+    one side of which is a call of Integrity.compute."""
+    from .. import tq
     fi = ctx.func('message.Message.parse')
     g = esc.add_exception_edges(fi)
+    sv = ctx.sval(fi)
     found = []
     for c in g.nodes:
-        if c.kind != 'cond' or not isinstance(c.ast, ast.Compare) or len(c.ast.ops) != 1:
+        if c.kind != 'cond' or id(c.ast) not in sv.terms:
             continue
-        if not isinstance(c.ast.ops[0], (ast.NotEq, ast.Eq)):
+        t = sv.terms[id(c.ast)]
+        passing = 'T'
+        if t[0] == 'not':
+            t, passing = t[1], 'F'
+        if t[0] != 'cmp' or t[1] != '==':
             continue
-        sides = [c.ast.left, c.ast.comparators[0]]
-        inl = [inline(ctx.res, fi, s, 4) for s in sides]
-        comp = [i for i, e in enumerate(inl) if any(isinstance(x, ast.Call) and isinstance(x.func, ast.Attribute)
-                                                    and x.func.attr == 'compute' and 'integrity' in src(x.func.value)
-                                                    for x in ast.walk(e))]
+        sides = [t[2], t[3]]
+        comp = [i for i, e in enumerate(sides) if tq.find_calls(e, 'crypto.Integrity.compute')]
         if len(comp) == 1:
-            passing = 'F' if isinstance(c.ast.ops[0], ast.NotEq) else 'T'
-            found.append((fi, g, c, passing, inl[comp[0]], inl[1 - comp[0]]))
+            found.append((fi, g, c, passing, sides[comp[0]], sides[1 - comp[0]]))
     return found
 
 
